@@ -1,4 +1,5 @@
 """Name-space plane: scenario families, real runs, observations for Trace_NS (properties C02 C03 C08 C13 C14 C16)."""
+from .common import rmtree as _rmtree
 import itertools, json, os, shutil
 from . import fsmat, runner, tlc
 from .common import scratch, rng, log
@@ -309,6 +310,7 @@ def family_special(rnd, tier):
                 fs.append(E("s/d%02d/p%d" % (di, fi), "fifo", m=0o666))
             fs.append(E("s/d%02d/c" % di, "chr", "1:3", m=0o666))
         sc = SC("spec-many-dirs-%o" % um, fs, ["s"], "d", cls="special"); sc["umask"] = um; sc["repeat"] = 6; sc["nomodel"] = True
+        sc["perturb"] = [None, "mkdir:delay_exit=3000", "mkdir:delay_enter=3000", "mknodat:delay_enter=2000", "mkdir:delay_exit=20000:when=2+3", None]
         out.append(sc)
     out.append(SC("spec-blk-sole", [E("bd", "blk", "7:0")], ["bd"], "d", r=False, cls="special"))
     out.append(SC("spec-blk-tree", tree("s", {"a": "F1", "bd": ("blk", 7, 1), "z": "F2"}), ["s"], "d", cls="special"))
@@ -483,7 +485,7 @@ def run_one(binary, sc, driver, run_id, names=None, strace=None, workers=None, e
     """Materialise, snapshot, run, snapshot.  Returns the observation record for Trace_NS (+ '_run' with raw details)."""
     names = names or fsmat.Names()
     root = os.path.join(scratch(), "ns-%s" % run_id)
-    shutil.rmtree(root, ignore_errors=True)
+    _rmtree(root)
     os.makedirs(root)
     contents = fsmat.materialise(root, mat_entries(sc), names)
     before = fsmat.snapshot(root, names, contents)
@@ -499,7 +501,7 @@ def run_one(binary, sc, driver, run_id, names=None, strace=None, workers=None, e
     obs["_run"] = {"stderr": r.stderr[-600:], "wall": r.wall, "timed_out": r.timed_out, "argv": [a.decode(errors="replace") for a in cli(sc, driver, names, root, workers)],
                    "cls": sc.get("cls", ""), "trace": st["out"] if st else None, "root": root}
     if not keep:
-        shutil.rmtree(root, ignore_errors=True)
+        _rmtree(root)
     return obs
 
 def strip(obs):
@@ -543,7 +545,7 @@ def profile(binary, sc, driver, workers=2):
         per.setdefault(r["sys"], {}).setdefault(r["tid"], 0)
         per[r["sys"]][r["tid"]] += 1
         tot[r["tid"]] = tot.get(r["tid"], 0) + 1
-    shutil.rmtree(o["_run"]["root"], ignore_errors=True)
+    _rmtree(o["_run"]["root"])
     try:
         os.unlink(o["_run"]["trace"])
     except OSError:
